@@ -27,6 +27,7 @@ type HarnessResult struct {
 	Reason     string         `json:"reason,omitempty"`
 	Paths      int            `json:"paths"`
 	PathsOK    int            `json:"paths_completed"`
+	PathsNT    int            `json:"paths_nontrivial"`
 	PathsEnded int            `json:"paths_assume_ended"`
 	PathsErr   int            `json:"paths_error"`
 	PathsBudg  int            `json:"paths_budget"`
@@ -290,7 +291,7 @@ func runHarness(workers []*Worker, name string, fn *ssa.Function) HarnessResult 
 	}
 	wg.Wait()
 	st := &ex.stats
-	r := HarnessResult{Harness: name, Paths: st.Paths, PathsOK: st.PathsOK, PathsEnded: st.PathsAssumeEnd, PathsErr: st.PathsError,
+	r := HarnessResult{Harness: name, Paths: st.Paths, PathsOK: st.PathsOK, PathsNT: st.PathsNontrivial, PathsEnded: st.PathsAssumeEnd, PathsErr: st.PathsError,
 		PathsBudg: st.PathsBudget, Reached: st.ReachWitness, Asserts: st.AssertsChecked, AssertsSym: st.AssertsSymbolic,
 		Branches: st.Branches, Forks: st.Forks, Steps: st.Steps, Queries: st.Queries, QSat: st.QSat, QUnsat: st.QUnsat, QUnknown: st.QUnknown,
 		SolverS: st.SolverTime.Seconds(), Cross: st.CrossChecks, CrossBad: st.CrossDisagree, WallS: time.Since(t0).Seconds(),
@@ -411,6 +412,9 @@ func (w *Worker) runPath(fn *ssa.Function, item WorkItem) {
 		st.PathsOK++
 		if p.reached {
 			st.ReachWitness++
+			if p.asserts > 0 && (len(p.taken) > 0 || p.symAsrt > 0) {
+				st.PathsNontrivial++
+			}
 		}
 		if len(st.Samples) < 5 {
 			st.Samples = append(st.Samples, fmt.Sprintf("trail=%s nondets=%d asserts=%d(sym %d) steps=%d", trailString(p.taken), len(p.nondets), p.asserts, p.symAsrt, p.steps))
